@@ -254,7 +254,35 @@ func (ex *Exec) doAppend(st *State, a, b SliceV, elem types.Type) []Outcome {
 				e[k] = v
 			}
 		}
-		id := s.alloc(nil, &ArrayV{e: e}, "append")
+		nArr := &ArrayV{e: e}
+		if _, scalar := z.(*Term); scalar && n > 0 {
+			aArr, bArr := (*ArrayV)(nil), (*ArrayV)(nil)
+			if a.obj != 0 {
+				aArr = ex.backing(s, a)
+			}
+			if b.obj != 0 {
+				bArr = ex.backing(s, b)
+			}
+			aOff, aLen, bOff := a.off, a.len, b.off
+			zt := z.(*Term)
+			rd := func(arr *ArrayV, idx *Term) *Term {
+				if arr == nil || len(arr.e) == 0 {
+					return zt
+				}
+				if idx.IsConst() {
+					k := int(sext(idx.c, 64))
+					if k < 0 || k >= len(arr.e) {
+						return zt
+					}
+					return arr.e[k].(*Term)
+				}
+				return ex.symRead(arr, idx, nil).(*Term)
+			}
+			nArr.fn = func(i *Term) *Term {
+				return tt.Ite(tt.Slt(i, aLen), rd(aArr, tt.Add(aOff, i)), rd(bArr, tt.Add(bOff, tt.Sub(i, aLen))))
+			}
+		}
+		id := s.alloc(nil, nArr, "append")
 		outs = append(outs, Outcome{st: s, ret: SliceV{obj: id, off: tt.BV(0, 64), len: newLen, cap: capT}})
 	}
 	return outs
